@@ -1278,3 +1278,290 @@ Proof.
   intros Hc. rewrite !pub_batch, map_map.
   rewrite (map_ext _ _ (pub_scale c Hc k)). apply sequence_option_map.
 Qed.
+
+(* ------------------------------------------------------------------ *)
+(* round 2: rational scaling, NaN handling, 2-D input, helpers, derived *)
+(* ------------------------------------------------------------------ *)
+Definition same_indices (f1 f2 : feats) : Prop :=
+  f_trace f1 = f_trace f2 /\ f_peak f1 = f_peak f2 /\ f_sign f1 = f_sign f2 /\
+  f_trough f1 = f_trough f2 /\ f_tip f1 = f_tip f2 /\ f_hpost f1 = f_hpost f2 /\
+  f_hpre f1 = f_hpre f2 /\ f_rec f1 = f_rec f2.
+
+(* c1 * (values of f1) = c2 * (values of f2) *)
+Definition values_prop (c1 c2 : Z) (f1 f2 : feats) : Prop :=
+  c1 * f_peak_val f1 = c2 * f_peak_val f2 /\ c1 * f_trough_val f1 = c2 * f_trough_val f2 /\
+  c1 * f_tip_val f1 = c2 * f_tip_val f2 /\ c1 * f_hpost_val f1 = c2 * f_hpost_val f2 /\
+  c1 * f_hpre_val f1 = c2 * f_hpre_val f2 /\ c1 * f_rec_val f1 = c2 * f_rec_val f2.
+
+(* w2 = (c1/c2) w1 for positive integers c1, c2, i.e. any positive rational factor
+   (and any two dyadic-valued, hence any two float-valued, proportional waveforms
+   after clearing the common power of two) *)
+Lemma pub_scale_rational c1 c2 k w1 w2 : 0 < c1 -> 0 < c2 ->
+  scale_wav c1 w1 = scale_wav c2 w2 ->
+  match features1 k w1, features1 k w2 with
+  | Some f1, Some f2 => same_indices f1 f2 /\ values_prop c1 c2 f1 f2
+  | None, None => True
+  | _, _ => False
+  end.
+Proof.
+  intros H1 H2 E.
+  pose proof (pub_scale c1 H1 k w1) as P1. pose proof (pub_scale c2 H2 k w2) as P2.
+  rewrite E in P1. rewrite P1 in P2. clear P1 E.
+  destruct (features1 k w1) as [f1|], (features1 k w2) as [f2|]; cbn in P2; try discriminate; [|exact I].
+  unfold scale_feats in P2. inversion P2. unfold same_indices, values_prop. auto 20.
+Qed.
+
+(* NaN is read as 0 *)
+Lemma pub_nan_zero k w : features1 k (map (map (fun o => Some (denan o))) w) = features1 k w.
+Proof.
+  unfold features1. replace (denan_wav (map (map (fun o => Some (denan o))) w)) with (denan_wav w); [reflexivity|].
+  unfold denan_wav. rewrite map_map. apply map_ext. intros row. rewrite map_map. reflexivity.
+Qed.
+
+Lemma smp_eq w t c : (t < length w)%nat -> smp w t c = denan (nth c (nth t w []) None).
+Proof.
+  intros H. unfold smp, trace_of.
+  rewrite (nth_indep _ 0 ((fun row => denan (nth c row None)) [])) by (rewrite map_length; exact H).
+  apply (map_nth (fun row => denan (nth c row None))).
+Qed.
+
+(* a channel that is NaN (or zero) throughout is never the peak channel of a successful call,
+   wherever it sits; more generally the reported peak sample is never a NaN *)
+Lemma pub_nan_channel k w T C f c : rect w T C -> features1 k w = Some f ->
+  (forall t, (t < T)%nat -> nth c (nth t w []) None = None) -> f_trace f <> c.
+Proof.
+  intros Hr Hf Hn Eq.
+  destruct (features1_inv k w T C f Hr Hf) as (pk0 & q & Ex & Nz & _).
+  destruct Ex as (_ & Lp & _). apply Nz. rewrite Eq.
+  change (smp w pk0 c = 0). destruct Hr as [L _]. rewrite smp_eq by lia. rewrite Hn by exact Lp. reflexivity.
+Qed.
+
+Lemma pub_peak_not_nan k w T C f : rect w T C -> features1 k w = Some f ->
+  nth (f_trace f) (nth (f_peak f) w []) None <> None.
+Proof.
+  intros Hr Hf Hn. destruct (pub_peak k w T C f Hr Hf) as (pk0 & _ & _ & Pv & Nz & _ & Rg).
+  apply Nz. rewrite Pv. change (smp w (f_peak f) (f_trace f) = 0).
+  destruct Hr as [L _]. rewrite smp_eq by lia. rewrite Hn. reflexivity.
+Qed.
+
+(* 2-D input = a batch of one; 3-D input = the map *)
+Lemma pub_input k i : compute_spike_features k i =
+  match i with
+  | In2 w => option_map (fun f => [f]) (features1 k w)
+  | In3 ws => sequence (map (features1 k) ws)
+  end.
+Proof.
+  unfold compute_spike_features. rewrite pub_batch. destruct i as [w|ws]; cbn [validate_arr_in map sequence]; [|reflexivity].
+  destruct (features1 k w); reflexivity.
+Qed.
+
+(* find_peak returns the extremum the feature row starts from *)
+Lemma pub_find_peak w T C : rect w T C -> (1 <= T)%nat -> (1 <= C)%nat ->
+  exists tr pk, find_peak1 w = Some (tr, pk, smp w pk tr) /\ is_extremum w T C tr pk.
+Proof.
+  intros Hr HT HC. destruct (pick_peak_wave w T C Hr HT HC) as (tr & pk & E & Nx & Ex).
+  exists tr, pk. split; [|exact Ex]. unfold find_peak1. rewrite E, Nx. reflexivity.
+Qed.
+
+Lemma sequence_map_total {A B} (g : A -> option B) (h : A -> B) : forall l,
+  (forall a, In a l -> g a = Some (h a)) -> sequence (map g l) = Some (map h l).
+Proof.
+  induction l as [|a r IH]; intros H; [reflexivity|].
+  cbn [map sequence]. rewrite (H a) by (left; reflexivity). rewrite IH by (intros; apply H; right; assumption).
+  reflexivity.
+Qed.
+
+(* weights_spk_ch: per trace the SIGNED sample at the first largest |sample|; the
+   peak channel of the feature row is the first trace of largest |weight| and, when
+   no swap occurs, peak_val is that weight *)
+Lemma pub_weights w T C : rect w T C -> (1 <= T)%nat ->
+  exists ws, weights1 w = Some ws /\ length ws = C /\
+    forall c, (c < C)%nat -> exists i, (i < T)%nat /\ nth c ws 0 = smp w i c /\
+      (forall t, (t < T)%nat -> Z.abs (smp w t c) <= Z.abs (smp w i c)) /\
+      (forall t, (t < i)%nat -> Z.abs (smp w t c) < Z.abs (smp w i c)).
+Proof.
+  intros Hr HT. unfold weights1. rewrite (chans_rect w T C Hr HT).
+  set (g := fun ch : list Z => match argmax (map Z.abs ch) with Some (i, _) => Some (nth i ch 0) | None => None end).
+  set (h := fun ch : list Z => match argmax (map Z.abs ch) with Some (i, _) => nth i ch 0 | None => 0 end).
+  assert (Lt : forall c, length (trace_of w c) = T) by (intros c; rewrite trace_of_length; apply Hr).
+  rewrite (sequence_map_total g h).
+  - eexists. split; [reflexivity|]. split; [rewrite !map_length, seq_length; reflexivity|].
+    intros c Hc. rewrite map_map.
+    rewrite (nth_indep _ 0 (h (trace_of w 0))) by (rewrite map_length, seq_length; lia).
+    rewrite (map_nth (fun c => h (trace_of w c))), seq_nth by lia. cbn [Nat.add]. unfold h.
+    destruct (argmax_total (map Z.abs (trace_of w c))) as (i & m & E). { rewrite map_length, Lt. lia. }
+    rewrite E. apply argmax_spec in E. rewrite map_length, Lt in E. destruct E as [(R & A & B) _].
+    exists i. split; [lia|]. split; [reflexivity|]. unfold smp. split.
+    + intros t Ht. specialize (A t ltac:(lia)). rewrite !nth_abs in A. exact A.
+    + intros t Ht. specialize (B t ltac:(lia)). rewrite !nth_abs in B. exact B.
+  - intros ch Hin. apply in_map_iff in Hin. destruct Hin as (c & <- & _). unfold g, h.
+    destruct (argmax_total (map Z.abs (trace_of w c))) as (i & m & E). { rewrite map_length, Lt. lia. }
+    rewrite E. reflexivity.
+Qed.
+
+Lemma pub_weights_peak w T C ws tr pk0 : rect w T C -> weights1 w = Some ws ->
+  is_extremum w T C tr pk0 ->
+  nth tr ws 0 = smp w pk0 tr /\
+  (forall c, (c < C)%nat -> Z.abs (nth c ws 0) <= Z.abs (nth tr ws 0)) /\
+  (forall c, (c < tr)%nat -> Z.abs (nth c ws 0) < Z.abs (nth tr ws 0)).
+Proof.
+  intros Hr Hw Ex. assert (Ex' := Ex). destruct Ex' as (E1 & E2 & E3 & E4 & E5).
+  destruct (pub_weights w T C Hr ltac:(lia)) as (ws' & Hw' & _ & Sp). rewrite Hw in Hw'. inversion Hw'; subst ws'.
+  assert (Wtr : nth tr ws 0 = smp w pk0 tr).
+  { destruct (Sp tr E1) as (i & Li & Ei & A & B). rewrite Ei.
+    destruct (lt_eq_lt_dec i pk0) as [[H|H]|H]; [|subst; reflexivity|].
+    - specialize (E5 i H). specialize (A pk0 E2). lia.
+    - specialize (B pk0 H). specialize (E3 i tr Li E1). lia. }
+  split; [exact Wtr|]. rewrite Wtr. split.
+  - intros c Hc. destruct (Sp c Hc) as (i & Li & Ei & _). rewrite Ei. apply E3; assumption.
+  - intros c Hc. destruct (Sp c ltac:(lia)) as (i & Li & Ei & _). rewrite Ei. apply E4; assumption.
+Qed.
+
+(* derived columns: quotients of differences of the points specified above;
+   a zero denominator only ever meets a zero numerator (nan, never +-inf) *)
+Lemma pub_derived k w T C f : rect w T C -> features1 k w = Some f ->
+  let x := trace_of w (f_trace f) in
+  d_ratio f = (Z.abs (nth (f_peak f) x 0), Z.abs (nth (f_trough f) x 0)) /\ 0 < fst (d_ratio f) /\
+  d_depol f = (nth (f_peak f) x 0 - nth (f_tip f) x 0, zn (f_peak f) - zn (f_tip f)) /\
+  0 < snd (d_depol f) /\
+  d_repol f = (nth (f_trough f) x 0 - nth (f_peak f) x 0, zn (f_trough f) - zn (f_peak f)) /\
+  0 <= snd (d_repol f) /\ (snd (d_repol f) = 0 -> fst (d_repol f) = 0) /\
+  d_recov f = (nth (f_rec f) x 0 - nth (f_trough f) x 0, zn (f_rec f) - zn (f_trough f)) /\
+  0 <= snd (d_recov f) /\ (snd (d_recov f) = 0 -> fst (d_recov f) = 0) /\
+  0 <= d_pt_dur f.
+Proof.
+  intros Hr Hf x.
+  destruct (pub_peak k w T C f Hr Hf) as (pk0 & _ & _ & Pv & Nz & _).
+  destruct (pub_order k w T C f Hr Hf) as (O1 & O2 & O3 & _ & Tv & R1 & R2 & R3).
+  destruct (pub_consistent k w T C f Hr Hf) as (_ & Tipv & _ & _ & Rv & _).
+  fold x in Pv, Tv, Tipv, Rv.
+  unfold d_ratio, d_depol, d_repol, d_recov, d_pt_dur, zn; cbn [fst snd].
+  rewrite Pv, Tv, Tipv, Rv.
+  assert (Hrec : (f_trough f <= f_rec f)%nat).
+  { destruct (le_lt_dec T (f_trough f + k)) as [H|H]; [rewrite (R3 H)|rewrite (R2 H)]; lia. }
+  repeat split; try lia.
+  - intros H. assert (E : f_trough f = f_peak f) by lia. rewrite E. lia.
+  - intros H. assert (E : f_rec f = f_trough f) by lia. rewrite E. lia.
+Qed.
+
+(* ------------------------------------------------------------------ *)
+(* padding: an all-NaN channel inserted at any position                *)
+(* ------------------------------------------------------------------ *)
+Definition insert_at {A} (j : nat) (a : A) (l : list A) : list A := firstn j l ++ a :: skipn j l.
+Definition insert_nan_channel (j : nat) (w : list (list (option Z))) : list (list (option Z)) :=
+  map (insert_at j None) w.
+Definition shift_idx (j c : nat) : nat := if (c <? j)%nat then c else S c.
+
+Lemma insert_at_length {A} j (a : A) l : length (insert_at j a l) = S (length l).
+Proof.
+  unfold insert_at. rewrite app_length. cbn [length]. rewrite firstn_length, skipn_length. lia.
+Qed.
+
+Lemma nth_insert_shift {A} j (a : A) l d c : (j <= length l)%nat ->
+  nth (shift_idx j c) (insert_at j a l) d = nth c l d.
+Proof.
+  intros Hj. unfold shift_idx, insert_at.
+  assert (Lf : length (firstn j l) = j) by (rewrite firstn_length; lia).
+  destruct (Nat.ltb_spec c j) as [H|H].
+  - rewrite app_nth1 by lia. rewrite <- (firstn_skipn j l) at 2. rewrite app_nth1 by lia. reflexivity.
+  - rewrite app_nth2 by lia. rewrite Lf. replace (S c - j)%nat with (S (c - j)) by lia. cbn [nth].
+    rewrite <- (firstn_skipn j l) at 2. rewrite app_nth2 by lia. rewrite Lf. reflexivity.
+Qed.
+
+Lemma nth_insert_self {A} j (a : A) l d : (j <= length l)%nat -> nth j (insert_at j a l) d = a.
+Proof.
+  intros Hj. unfold insert_at.
+  assert (Lf : length (firstn j l) = j) by (rewrite firstn_length; lia).
+  rewrite app_nth2 by lia. rewrite Lf, Nat.sub_diag. reflexivity.
+Qed.
+
+Lemma rect_insert j w T C : rect w T C -> rect (insert_nan_channel j w) T (S C).
+Proof.
+  intros [L R]. split; [unfold insert_nan_channel; rewrite map_length; exact L|].
+  intros row Hin. apply in_map_iff in Hin. destruct Hin as (r & <- & Hr).
+  rewrite insert_at_length, (R r Hr). reflexivity.
+Qed.
+
+Lemma trace_insert_shift j w T C c : rect w T C -> (j <= C)%nat ->
+  trace_of (insert_nan_channel j w) (shift_idx j c) = trace_of w c.
+Proof.
+  intros [L R] Hj. unfold trace_of, insert_nan_channel. rewrite map_map. apply map_ext_in.
+  intros row Hin. rewrite nth_insert_shift by (rewrite (R row Hin); exact Hj). reflexivity.
+Qed.
+
+Lemma nth_const_zero {A} : forall (l : list A) t, nth t (map (fun _ => 0) l) 0 = 0.
+Proof. induction l as [|a r IH]; intros [|t]; cbn; auto. Qed.
+
+Lemma smp_insert_self j w T C t : rect w T C -> (j <= C)%nat -> smp (insert_nan_channel j w) t j = 0.
+Proof.
+  intros [L R] Hj. unfold smp, trace_of, insert_nan_channel. rewrite map_map.
+  rewrite (map_ext_in _ (fun _ => 0)).
+  - apply nth_const_zero.
+  - intros row Hin. rewrite nth_insert_self by (rewrite (R row Hin); exact Hj). reflexivity.
+Qed.
+
+Lemma shift_cases j c' : c' = j \/ exists c, c' = shift_idx j c /\ (c' < j -> c = c')%nat /\ (j < c' -> S c = c')%nat.
+Proof.
+  destruct (lt_eq_lt_dec c' j) as [[H|H]|H].
+  - right. exists c'. unfold shift_idx. destruct (Nat.ltb_spec c' j); [|lia]. split; [reflexivity|]. lia.
+  - left. exact H.
+  - right. exists (c' - 1)%nat. unfold shift_idx. destruct (Nat.ltb_spec (c' - 1) j); [lia|]. split; lia.
+Qed.
+
+Lemma zero_none k w T C : rect w T C -> (forall t c, smp w t c = 0) -> features1 k w = None.
+Proof.
+  intros Hr Hz. destruct (features1 k w) as [f|] eqn:E; [|reflexivity]. exfalso.
+  destruct (features1_inv k w T C f Hr E) as (pk0 & q & _ & Nz & _). apply Nz. apply Hz.
+Qed.
+
+Lemma trace_features_f_trace k tr x pk f : trace_features k tr x pk = Some f -> f_trace f = tr.
+Proof.
+  intros H. apply trace_features_unfold in H. destruct H as (q & _ & Ht).
+  apply tail_fields in Ht. tauto.
+Qed.
+
+Lemma pub_nan_insert k j w T C : rect w T C -> (j <= C)%nat ->
+  features1 k (insert_nan_channel j w) =
+  option_map (fun f => with_trace (shift_idx j (f_trace f)) f) (features1 k w).
+Proof.
+  intros Hr Hj. pose proof (rect_insert j w T C Hr) as Hr'.
+  set (w' := insert_nan_channel j w) in *.
+  assert (Ssh : forall t c, smp w' t (shift_idx j c) = smp w t c).
+  { intros t c. unfold smp, w'. rewrite (trace_insert_shift j w T C c Hr Hj). reflexivity. }
+  assert (Sj : forall t, smp w' t j = 0) by (intros t; apply (smp_insert_self j w T C t Hr Hj)).
+  assert (Zero : (forall t c, smp w t c = 0) -> features1 k w' = option_map (fun f => with_trace (shift_idx j (f_trace f)) f) (features1 k w)).
+  { intros Hz. rewrite (zero_none k w T C Hr Hz). apply (zero_none k w' T (S C) Hr').
+    intros t c'. destruct (shift_cases j c') as [->|(c & -> & _)]; [apply Sj|]. rewrite Ssh. apply Hz. }
+  destruct (le_lt_dec T 0) as [HT|HT].
+  { apply Zero. intros t c. unfold smp. apply nth_overflow. rewrite trace_of_length. destruct Hr as [-> _]. lia. }
+  destruct (le_lt_dec C 0) as [HC|HC].
+  { apply Zero. intros t c. destruct Hr as [L R]. unfold smp, trace_of.
+    rewrite (map_ext_in _ (fun _ => 0)).
+    - apply nth_const_zero.
+    - intros row Hin. specialize (R row Hin). destruct row; [|simpl in R; lia]. destruct c; reflexivity. }
+  destruct (pick_peak_wave w T C Hr HT HC) as (tr & pk0 & _ & _ & Ex).
+  assert (Ex0 := Ex). destruct Ex0 as (E1 & E2 & E3 & E4 & E5).
+  destruct (Z.eq_dec (smp w pk0 tr) 0) as [Mz|Mnz].
+  { apply Zero. intros t c. destruct (le_lt_dec T t) as [Ht|Ht].
+    - unfold smp. apply nth_overflow. rewrite trace_of_length. destruct Hr as [-> _]. exact Ht.
+    - destruct (le_lt_dec C c) as [Hc|Hc].
+      + destruct Hr as [L R]. rewrite smp_eq by lia. rewrite nth_overflow; [reflexivity|].
+        rewrite (R (nth t w [])) by (apply nth_In; lia). exact Hc.
+      + specialize (E3 t c Ht Hc). rewrite Mz in E3. lia. }
+  assert (Ex' : is_extremum w' T (S C) (shift_idx j tr) pk0).
+  { unfold is_extremum. rewrite Ssh. split; [unfold shift_idx; destruct (tr <? j)%nat; lia|].
+    split; [exact E2|]. split; [|split].
+    - intros t c' Ht Hc'. destruct (shift_cases j c') as [->|(c & -> & B1 & B2)].
+      + rewrite Sj. lia.
+      + rewrite Ssh. apply E3; [exact Ht|]. unfold shift_idx in Hc'. destruct (Nat.ltb_spec c j); lia.
+    - intros t c' Ht Hc'. destruct (shift_cases j c') as [->|(c & -> & B1 & B2)].
+      + rewrite Sj. lia.
+      + rewrite Ssh. apply E4; [exact Ht|]. unfold shift_idx in Hc'.
+        destruct (Nat.ltb_spec c j), (Nat.ltb_spec tr j); lia.
+    - intros t Ht. rewrite Ssh. apply E5. exact Ht. }
+  rewrite (features1_pick k w' T (S C) _ _ Hr' Ex'), (features1_pick k w T C _ _ Hr Ex).
+  unfold w'. rewrite (trace_insert_shift j w T C tr Hr Hj).
+  rewrite (trace_features_trace k tr (shift_idx j tr)).
+  destruct (trace_features k tr (trace_of w tr) pk0) as [f|] eqn:E; [|reflexivity].
+  cbn [option_map]. rewrite (trace_features_f_trace _ _ _ _ _ E). reflexivity.
+Qed.
